@@ -1,7 +1,7 @@
 /-
   C17 for unambiguous grammars at LANGUAGE level.
 
-  `instUG G tbl` / `instUTg tg tbl` are `UCFG.instantiate_constants` (u_cfg.py:198-213: same
+  `instUG fx G tbl` / `instUTg fx tg tbl` are `UCFG.instantiate_constants` (u_cfg.py:198-213: same
   start symbols, instantiated rule table `instU`, `clean=False`) and
   `ProbUGrammar.instantiate_constants` (tagged_u_grammar.py:258-276: divided tags `instUTags`,
   `start_tags` unchanged) on the grammar objects of PS/Model/Ucfg.lean and PS/Model/Prob.lean.
@@ -26,66 +26,103 @@ open PS PS.G
 variable {V : Type} [DecidableEq V]
 
 /-- `UCFG.instantiate_constants` -/
-def instUG (G : U.UCFG V) (tbl : Tbl) : U.UCFG V := ⟨G.starts, instU G.rules tbl, G.someStart⟩
+def instUG (fx : Fix) (G : U.UCFG V) (tbl : Tbl) : U.UCFG V := ⟨G.starts, instU fx G.rules tbl, G.someStart⟩
 
 /-- `ProbUGrammar.instantiate_constants` -/
-def instUTg (tg : U.UTags V) (tbl : Tbl) : U.UTags V := ⟨instUTags tg.tags tbl, tg.startTags⟩
+def instUTg (fx : Fix) (tg : U.UTags V) (tbl : Tbl) : U.UTags V := ⟨instUTags fx tg.tags tbl, tg.startTags⟩
 
-/-! ### symbols -/
+/-! ### symbols and clean templates -/
 
-/-- a constant of a table type is the bare slot -/
-def slotFix (tbl : Tbl) (P : Sym) : Prop :=
-  ∀ vals, slot? tbl P = some vals → P = Sym.const P.ty ""
+/-- a symbol of a clean template: a symbol the code instantiates is the bare slot, a constant it
+    leaves alone has no value listed for its type (`okKey` without the condition on the value list) -/
+def slotFix (fx : Fix) (tbl : Tbl) (P : Sym) : Prop :=
+  (∀ vals, slot? fx tbl P = some vals → P = Sym.const P.ty "") ∧
+  (slot? fx tbl P = none → P.kind = .const →
+    ∀ vals, AList.lookup P.ty tbl = some vals → P.name ∉ vals)
 
-theorem slotFix_of_okKey {tbl : Tbl} {P : Sym} (h : okKey tbl P) : slotFix tbl P :=
-  fun vals hs => (h vals hs).1
+/-- decidable form of `slotFix` -/
+def cleanSym (fx : Fix) (tbl : Tbl) (P : Sym) : Bool :=
+  match slot? fx tbl P with
+  | some _ => P = Sym.const P.ty ""
+  | none => !(P.kind = .const) || match AList.lookup P.ty tbl with
+      | some vals => !(vals.contains P.name)
+      | none => true
 
-theorem slotFix_of_templSym {tbl : Tbl} {P : Sym} (h : templSym tbl P = P) : slotFix tbl P := by
-  intro vals hs
-  obtain ⟨hk, hl⟩ := slot?_some hs
-  unfold templSym at h
-  simp only [hk, AList.contains, hl, Option.isSome_some, decide_true, Bool.and_self, if_true] at h
-  exact h.symm
+/- a clean template: all its symbols are `cleanSym` (every program of a grammar that satisfies
+   `rulesOK` is one: `clean_of_genU`) -/
+mutual
+  def clean (fx : Fix) (tbl : Tbl) : Prog → Bool
+    | .node f kids => cleanSym fx tbl f && cleanList fx tbl kids
+  def cleanList (fx : Fix) (tbl : Tbl) : List Prog → Bool
+    | [] => true
+    | k :: ks => clean fx tbl k && cleanList fx tbl ks
+end
 
-theorem templSym_of_slotFix {tbl : Tbl} {P : Sym} (h : slotFix tbl P) : templSym tbl P = P := by
-  unfold templSym
-  by_cases hk : P.kind = .const
-  · cases hl : AList.lookup P.ty tbl with
-    | none => simp [AList.contains, hl]
-    | some vals =>
-      have hs : slot? tbl P = some vals := by simp [slot?, hk, hl]
-      simp only [hk, AList.contains, hl, Option.isSome_some, decide_true, Bool.and_self, if_true]
-      exact (h vals hs).symm
-  · simp [hk]
-
-theorem produces_iff_symInst' {tbl : Tbl} {P k : Sym} (hP : slotFix tbl P) :
-    produces tbl P k ↔ symInst tbl P k = true := by
-  unfold produces symInst isSlot
-  cases hs : slot? tbl P with
+theorem cleanSym_iff {fx : Fix} {tbl : Tbl} {P : Sym} : cleanSym fx tbl P = true ↔ slotFix fx tbl P := by
+  unfold cleanSym slotFix
+  cases hs : slot? fx tbl P with
   | some vals =>
-    obtain ⟨hk, hl⟩ := slot?_some hs
-    have hPe := hP vals hs
-    have hname : P.name = "" := by rw [hPe]; rfl
-    simp [hk, hname, AList.contains, hl]
+    simp only [decide_eq_true_eq, Option.some.injEq, reduceCtorEq, false_imp_iff, and_true]
+    constructor
+    · intro h _ _; exact h
+    · intro h; exact h vals rfl
   | none =>
-    unfold slot? at hs
+    simp only [reduceCtorEq, false_imp_iff, implies_true, true_and, forall_const]
     by_cases hk : P.kind = .const
-    · rw [if_pos hk] at hs
-      simp [AList.contains, hs]
+    · cases hl : AList.lookup P.ty tbl with
+      | none => simp [hk]
+      | some vals0 => simp [hk]
     · simp [hk]
 
-theorem templSym_of_produces' {tbl : Tbl} {P k : Sym} (hP : slotFix tbl P) (hp : produces tbl P k) :
-    templSym tbl k = P := by
+theorem slotFix_of_okKey {fx : Fix} {tbl : Tbl} {P : Sym} (h : okKey fx tbl P) : slotFix fx tbl P :=
+  ⟨fun vals hs => (h.1 vals hs).1, h.2⟩
+
+theorem templSym_of_slotFix {fx : Fix} {tbl : Tbl} {P : Sym} (h : slotFix fx tbl P) :
+    templSym tbl P = P := by
+  unfold templSym
+  by_cases hk : P.kind = .const
+  · rw [if_pos hk]
+    cases hl : AList.lookup P.ty tbl with
+    | none => rfl
+    | some vals0 =>
+      simp only
+      by_cases hc : vals0.contains P.name = true
+      · rw [if_pos hc]
+        have hm : P.name ∈ vals0 := by simpa using hc
+        cases hs : slot? fx tbl P with
+        | some vals => exact (h.1 vals hs).symm
+        | none => exact absurd hm (h.2 hs hk vals0 hl)
+      · rw [if_neg hc]
+  · rw [if_neg hk]
+
+theorem produces_iff_symInst' {fx : Fix} {tbl : Tbl} {P k : Sym} (hP : slotFix fx tbl P) :
+    produces fx tbl P k ↔ symInst tbl P k = true := by
+  unfold produces
+  cases hs : slot? fx tbl P with
+  | some vals =>
+    obtain ⟨hk, _, vals0, hl, rfl⟩ := slot?_some hs
+    have hPe := hP.1 _ hs
+    have hname : P.name = "" := by rw [hPe]; rfl
+    unfold symInst
+    rw [isSlot_of_slot? hs hname]
+    simp only [if_true, hl, List.any_eq_true, decide_eq_true_eq]
+    constructor
+    · rintro ⟨v, hv, rfl⟩; exact ⟨v, mem_fxvals.mp hv, rfl⟩
+    · rintro ⟨v, hv, rfl⟩; exact ⟨v, mem_fxvals.mpr hv, rfl⟩
+  | none =>
+    simp only
+    rw [symInst_of_not_isSlot (not_isSlot_of_slot?_none hs)]
+
+theorem templSym_of_produces' {fx : Fix} {tbl : Tbl} {P k : Sym} (hP : slotFix fx tbl P)
+    (hp : produces fx tbl P k) : templSym tbl k = P := by
   unfold produces at hp
-  cases hs : slot? tbl P with
+  cases hs : slot? fx tbl P with
   | some vals =>
     rw [hs] at hp
-    obtain ⟨v, _, rfl⟩ := hp
-    obtain ⟨_, hl⟩ := slot?_some hs
-    have hPe := hP vals hs
-    unfold templSym
-    simp [Sym.const, AList.contains, hl]
-    rw [hPe]; rfl
+    obtain ⟨v, hv, rfl⟩ := hp
+    obtain ⟨_, _, vals0, hl, rfl⟩ := slot?_some hs
+    rw [templSym_const_listed hl (mem_fxvals.mp hv)]
+    exact (hP.1 _ hs).symm
   | none =>
     rw [hs] at hp
     subst hp
@@ -111,15 +148,15 @@ theorem alts?_row {G : U.UCFG V} {nt : U.UNT V} {P : Sym} {c : List (List (U.UNT
   | none => rw [hl] at h; cases h
   | some row => rw [hl] at h; exact ⟨row, rfl, h⟩
 
-theorem okKey_of_alts {tbl : Tbl} {G : U.UCFG V} (h : rulesOK tbl G.rules = true)
+theorem okKey_of_alts {fx : Fix} {tbl : Tbl} {G : U.UCFG V} (h : rulesOK fx tbl G.rules = true)
     {nt : U.UNT V} {P : Sym} {c : List (List (U.UNT V))} (hr : G.alts? nt P = some c) :
-    okKey tbl P := by
+    okKey fx tbl P := by
   obtain ⟨row, hl, hP⟩ := alts?_row hr
   exact (rowOK_iff.mp (rulesOK_row h hl)).2 P (mem_keys_of_lookup hP)
 
-theorem alts?_inst_of_produces {tbl : Tbl} {G : U.UCFG V} (h : rulesOK tbl G.rules = true)
-    (nt : U.UNT V) {P k : Sym} (hP : okKey tbl P) (hp : produces tbl P k) :
-    (instUG G tbl).alts? nt k = G.alts? nt P := by
+theorem alts?_inst_of_produces {fx : Fix} {tbl : Tbl} {G : U.UCFG V} (h : rulesOK fx tbl G.rules = true)
+    (nt : U.UNT V) {P k : Sym} (hP : okKey fx tbl P) (hp : produces fx tbl P k) :
+    (instUG fx G tbl).alts? nt k = G.alts? nt P := by
   unfold U.UCFG.alts? instUG instU
   simp only [lookup_instRules]
   cases hl : AList.lookup nt G.rules with
@@ -129,12 +166,12 @@ theorem alts?_inst_of_produces {tbl : Tbl} {G : U.UCFG V} (h : rulesOK tbl G.rul
     rw [lookup_instRow_of_produces (rulesOK_row h hl) hP hp]
     cases AList.lookup P row with
     | none => rfl
-    | some v => cases slot? tbl P <;> rfl
+    | some v => cases slot? fx tbl P <;> rfl
 
-theorem alts?_inst_some {tbl : Tbl} {G : U.UCFG V} (h : rulesOK tbl G.rules = true)
+theorem alts?_inst_some {fx : Fix} {tbl : Tbl} {G : U.UCFG V} (h : rulesOK fx tbl G.rules = true)
     {nt : U.UNT V} {k : Sym} {c : List (List (U.UNT V))}
-    (hr : (instUG G tbl).alts? nt k = some c) :
-    ∃ P, G.alts? nt P = some c ∧ produces tbl P k := by
+    (hr : (instUG fx G tbl).alts? nt k = some c) :
+    ∃ P, G.alts? nt P = some c ∧ produces fx tbl P k := by
   unfold U.UCFG.alts? instUG instU at hr
   simp only [lookup_instRules] at hr
   cases hl : AList.lookup nt G.rules with
@@ -148,13 +185,13 @@ theorem alts?_inst_some {tbl : Tbl} {G : U.UCFG V} (h : rulesOK tbl G.rules = tr
     rw [hl]
     simp only
     rw [hlP, hw]
-    cases slot? tbl P <;> rfl
+    cases slot? fx tbl P <;> rfl
 
 /-- a template symbol without rule: none of its instantiations has a rule either -/
-theorem alts?_inst_none {tbl : Tbl} {G : U.UCFG V} (h : rulesOK tbl G.rules = true)
-    {nt : U.UNT V} {P k : Sym} (hP : slotFix tbl P) (hp : produces tbl P k)
-    (ha : G.alts? nt P = none) : (instUG G tbl).alts? nt k = none := by
-  cases ha' : (instUG G tbl).alts? nt k with
+theorem alts?_inst_none {fx : Fix} {tbl : Tbl} {G : U.UCFG V} (h : rulesOK fx tbl G.rules = true)
+    {nt : U.UNT V} {P k : Sym} (hP : slotFix fx tbl P) (hp : produces fx tbl P k)
+    (ha : G.alts? nt P = none) : (instUG fx G tbl).alts? nt k = none := by
+  cases ha' : (instUG fx G tbl).alts? nt k with
   | none => rfl
   | some c =>
     obtain ⟨P', hP', hp'⟩ := alts?_inst_some h ha'
@@ -171,17 +208,17 @@ def derTempl (tbl : Tbl) (x : U.UNT V × Sym × List (U.UNT V)) : U.UNT V × Sym
   (x.1, templSym tbl x.2.1, x.2.2)
 
 mutual
-  theorem derivs_inst (tbl : Tbl) (G : U.UCFG V) (h : rulesOK tbl G.rules = true) :
-      ∀ (t t' : Prog) (nt : U.UNT V), templ tbl t = t → isInst tbl t t' = true →
-        (U.derivs (instUG G tbl) t' nt).map (List.map (derTempl tbl)) = U.derivs G t nt
+  theorem derivs_inst (fx : Fix) (tbl : Tbl) (G : U.UCFG V) (h : rulesOK fx tbl G.rules = true) :
+      ∀ (t t' : Prog) (nt : U.UNT V), clean fx tbl t = true → isInst tbl t t' = true →
+        (U.derivs (instUG fx G tbl) t' nt).map (List.map (derTempl tbl)) = U.derivs G t nt
     | .node P kids, .node k kids', nt => by
       intro hf hi
-      unfold templ at hf
-      simp only [Tree.node.injEq] at hf
+      unfold clean at hf
+      rw [Bool.and_eq_true] at hf
       unfold isInst at hi
       rw [Bool.and_eq_true] at hi
-      have hsf := slotFix_of_templSym hf.1
-      have hp : produces tbl P k := (produces_iff_symInst' hsf).mpr hi.1
+      have hsf := cleanSym_iff.mp hf.1
+      have hp : produces fx tbl P k := (produces_iff_symInst' hsf).mpr hi.1
       have hts : templSym tbl k = P := templSym_of_produces' hsf hp
       rw [U.derivs, U.derivs]
       cases ha : G.alts? nt P with
@@ -191,17 +228,17 @@ mutual
         simp only [List.map_flatMap, List.map_map]
         apply U.flatMap_congr'
         intro args _
-        rw [← derivsList_inst tbl G h kids kids' args hf.2 hi.2, List.map_map]
+        rw [← derivsList_inst fx tbl G h kids kids' args hf.2 hi.2, List.map_map]
         apply List.map_congr_left
         intro r _
         simp [derTempl, hts]
       | none =>
         rw [alts?_inst_none h hsf hp ha]
         rfl
-  theorem derivsList_inst (tbl : Tbl) (G : U.UCFG V) (h : rulesOK tbl G.rules = true) :
-      ∀ (ks ks' : List Prog) (as : List (U.UNT V)), templList tbl ks = ks →
+  theorem derivsList_inst (fx : Fix) (tbl : Tbl) (G : U.UCFG V) (h : rulesOK fx tbl G.rules = true) :
+      ∀ (ks ks' : List Prog) (as : List (U.UNT V)), cleanList fx tbl ks = true →
         isInstList tbl ks ks' = true →
-        (U.derivsList (instUG G tbl) ks' as).map (List.map (derTempl tbl)) = U.derivsList G ks as
+        (U.derivsList (instUG fx G tbl) ks' as).map (List.map (derTempl tbl)) = U.derivsList G ks as
     | [], [], [] => by intro _ _; simp [U.derivsList]
     | [], [], _ :: _ => by intro _ _; simp [U.derivsList]
     | [], _ :: _, _ => by intro _ hi; simp [isInstList] at hi
@@ -209,12 +246,12 @@ mutual
     | _ :: _, _ :: _, [] => by intro _ _; simp [U.derivsList]
     | k :: ks, k' :: ks', a :: as => by
       intro hf hi
-      unfold templList at hf
-      simp only [List.cons.injEq] at hf
+      unfold cleanList at hf
+      rw [Bool.and_eq_true] at hf
       unfold isInstList at hi
       rw [Bool.and_eq_true] at hi
-      rw [U.derivsList, U.derivsList, ← derivs_inst tbl G h k k' a hf.1 hi.1,
-        ← derivsList_inst tbl G h ks ks' as hf.2 hi.2]
+      rw [U.derivsList, U.derivsList, ← derivs_inst fx tbl G h k k' a hf.1 hi.1,
+        ← derivsList_inst fx tbl G h ks ks' as hf.2 hi.2]
       simp only [List.map_flatMap, List.flatMap_map, List.map_map]
       apply U.flatMap_congr'
       intro d _
@@ -223,22 +260,22 @@ mutual
       simp
 end
 
-theorem allDerivs_inst (tbl : Tbl) (G : U.UCFG V) (h : rulesOK tbl G.rules = true) (t t' : Prog)
-    (hf : templ tbl t = t) (hi : isInst tbl t t' = true) :
-    (U.allDerivs (instUG G tbl) t').map (fun sd => (sd.1, sd.2.map (derTempl tbl))) =
+theorem allDerivs_inst (fx : Fix) (tbl : Tbl) (G : U.UCFG V) (h : rulesOK fx tbl G.rules = true) (t t' : Prog)
+    (hf : clean fx tbl t = true) (hi : isInst tbl t t' = true) :
+    (U.allDerivs (instUG fx G tbl) t').map (fun sd => (sd.1, sd.2.map (derTempl tbl))) =
       U.allDerivs G t := by
   unfold U.allDerivs
   show (G.starts.flatMap _).map _ = _
   rw [List.map_flatMap]
   apply U.flatMap_congr'
   intro s _
-  rw [← derivs_inst tbl G h t t' s hf hi]
+  rw [← derivs_inst fx tbl G h t t' s hf hi]
   simp [List.map_map, Function.comp_def]
 
-theorem allDerivs_inst_length (tbl : Tbl) (G : U.UCFG V) (h : rulesOK tbl G.rules = true)
-    (t t' : Prog) (hf : templ tbl t = t) (hi : isInst tbl t t' = true) :
-    (U.allDerivs (instUG G tbl) t').length = (U.allDerivs G t).length := by
-  rw [← allDerivs_inst tbl G h t t' hf hi, List.length_map]
+theorem allDerivs_inst_length (fx : Fix) (tbl : Tbl) (G : U.UCFG V) (h : rulesOK fx tbl G.rules = true)
+    (t t' : Prog) (hf : clean fx tbl t = true) (hi : isInst tbl t t' = true) :
+    (U.allDerivs (instUG fx G tbl) t').length = (U.allDerivs G t).length := by
+  rw [← allDerivs_inst fx tbl G h t t' hf hi, List.length_map]
 
 /-! ### templates of derivable terms -/
 
@@ -253,10 +290,10 @@ theorem flatMap_ne_nil {α β : Type} {l : List α} {g : α → List β} (h : l.
       exact ⟨b, List.mem_cons_of_mem _ hb, hg⟩
     · exact ⟨a, List.mem_cons_self .., ha⟩
 
-/- a term with a derivation in the template grammar is its own template -/
+/- a term with a derivation in the template grammar is a clean template -/
 mutual
-  theorem templ_fix_of_derivs (tbl : Tbl) (G : U.UCFG V) (h : rulesOK tbl G.rules = true) :
-      ∀ (t : Prog) (nt : U.UNT V), U.derivs G t nt ≠ [] → templ tbl t = t
+  theorem clean_of_derivs (fx : Fix) (tbl : Tbl) (G : U.UCFG V) (h : rulesOK fx tbl G.rules = true) :
+      ∀ (t : Prog) (nt : U.UNT V), U.derivs G t nt ≠ [] → clean fx tbl t = true
     | .node P kids, nt => by
       intro hd
       rw [U.derivs] at hd
@@ -267,11 +304,12 @@ mutual
         obtain ⟨args, _, hne⟩ := flatMap_ne_nil hd
         have hne' : U.derivsList G kids args ≠ [] := by
           intro e; rw [e] at hne; exact hne rfl
-        unfold templ
-        rw [templSym_of_slotFix (slotFix_of_okKey (okKey_of_alts h ha)),
-          templList_fix_of_derivs tbl G h kids args hne']
-  theorem templList_fix_of_derivs (tbl : Tbl) (G : U.UCFG V) (h : rulesOK tbl G.rules = true) :
-      ∀ (ks : List Prog) (as : List (U.UNT V)), U.derivsList G ks as ≠ [] → templList tbl ks = ks
+        unfold clean
+        rw [Bool.and_eq_true]
+        exact ⟨cleanSym_iff.mpr (slotFix_of_okKey (okKey_of_alts h ha)),
+          cleanList_of_derivs fx tbl G h kids args hne'⟩
+  theorem cleanList_of_derivs (fx : Fix) (tbl : Tbl) (G : U.UCFG V) (h : rulesOK fx tbl G.rules = true) :
+      ∀ (ks : List Prog) (as : List (U.UNT V)), U.derivsList G ks as ≠ [] → cleanList fx tbl ks = true
     | [], _ => by intro _; rfl
     | _ :: _, [] => by intro hd; simp [U.derivsList] at hd
     | k :: ks, a :: as => by
@@ -280,84 +318,89 @@ mutual
       obtain ⟨d, hdm, hne⟩ := flatMap_ne_nil hd
       have h1 : U.derivs G k a ≠ [] := by intro e; rw [e] at hdm; cases hdm
       have h2 : U.derivsList G ks as ≠ [] := by intro e; rw [e] at hne; exact hne rfl
-      unfold templList
-      rw [templ_fix_of_derivs tbl G h k a h1, templList_fix_of_derivs tbl G h ks as h2]
+      unfold cleanList
+      rw [Bool.and_eq_true]
+      exact ⟨clean_of_derivs fx tbl G h k a h1, cleanList_of_derivs fx tbl G h ks as h2⟩
 end
 
 /- a term with a derivation in the instantiated grammar is an instantiation of its template,
-   and the template is its own template -/
+   and the template is clean -/
 mutual
-  theorem isInst_templ_of_derivs (tbl : Tbl) (G : U.UCFG V) (h : rulesOK tbl G.rules = true) :
-      ∀ (t' : Prog) (nt : U.UNT V), U.derivs (instUG G tbl) t' nt ≠ [] →
-        isInst tbl (templ tbl t') t' = true ∧ templ tbl (templ tbl t') = templ tbl t'
+  theorem isInst_templ_of_derivs (fx : Fix) (tbl : Tbl) (G : U.UCFG V) (h : rulesOK fx tbl G.rules = true) :
+      ∀ (t' : Prog) (nt : U.UNT V), U.derivs (instUG fx G tbl) t' nt ≠ [] →
+        isInst tbl (templ tbl t') t' = true ∧ clean fx tbl (templ tbl t') = true
     | .node k kids', nt => by
       intro hd
       rw [U.derivs] at hd
-      cases ha : (instUG G tbl).alts? nt k with
+      cases ha : (instUG fx G tbl).alts? nt k with
       | none => rw [ha] at hd; exact absurd rfl hd
       | some cands =>
         rw [ha] at hd
         obtain ⟨args, _, hne⟩ := flatMap_ne_nil hd
-        have hne' : U.derivsList (instUG G tbl) kids' args ≠ [] := by
+        have hne' : U.derivsList (instUG fx G tbl) kids' args ≠ [] := by
           intro e; rw [e] at hne; exact hne rfl
         obtain ⟨P, hP, hp⟩ := alts?_inst_some h ha
         have hok := okKey_of_alts h hP
         have hts := templSym_of_produces hok hp
-        have ih := isInstList_templ_of_derivs tbl G h kids' args hne'
+        have ih := isInstList_templ_of_derivs fx tbl G h kids' args hne'
         constructor
         · unfold templ isInst
           rw [hts, Bool.and_eq_true]
           exact ⟨(produces_iff_symInst hok).mp hp, ih.1⟩
-        · simp only [templ, hts, templSym_of_slotFix (slotFix_of_okKey hok), ih.2]
-  theorem isInstList_templ_of_derivs (tbl : Tbl) (G : U.UCFG V) (h : rulesOK tbl G.rules = true) :
-      ∀ (ks' : List Prog) (as : List (U.UNT V)), U.derivsList (instUG G tbl) ks' as ≠ [] →
+        · unfold templ clean
+          rw [hts, Bool.and_eq_true]
+          exact ⟨cleanSym_iff.mpr (slotFix_of_okKey hok), ih.2⟩
+  theorem isInstList_templ_of_derivs (fx : Fix) (tbl : Tbl) (G : U.UCFG V) (h : rulesOK fx tbl G.rules = true) :
+      ∀ (ks' : List Prog) (as : List (U.UNT V)), U.derivsList (instUG fx G tbl) ks' as ≠ [] →
         isInstList tbl (templList tbl ks') ks' = true ∧
-          templList tbl (templList tbl ks') = templList tbl ks'
-    | [], _ => by intro _; simp [templList, isInstList]
+          cleanList fx tbl (templList tbl ks') = true
+    | [], _ => by intro _; simp [templList, isInstList, cleanList]
     | _ :: _, [] => by intro hd; simp [U.derivsList] at hd
     | k' :: ks', a :: as => by
       intro hd
       rw [U.derivsList] at hd
       obtain ⟨d, hdm, hne⟩ := flatMap_ne_nil hd
-      have h1 : U.derivs (instUG G tbl) k' a ≠ [] := by intro e; rw [e] at hdm; cases hdm
-      have h2 : U.derivsList (instUG G tbl) ks' as ≠ [] := by
+      have h1 : U.derivs (instUG fx G tbl) k' a ≠ [] := by intro e; rw [e] at hdm; cases hdm
+      have h2 : U.derivsList (instUG fx G tbl) ks' as ≠ [] := by
         intro e; rw [e] at hne; exact hne rfl
-      have i1 := isInst_templ_of_derivs tbl G h k' a h1
-      have i2 := isInstList_templ_of_derivs tbl G h ks' as h2
+      have i1 := isInst_templ_of_derivs fx tbl G h k' a h1
+      have i2 := isInstList_templ_of_derivs fx tbl G h ks' as h2
       constructor
       · unfold templList isInstList
         rw [Bool.and_eq_true]
         exact ⟨i1.1, i2.1⟩
-      · simp only [templList, i1.2, i2.2]
+      · unfold templList cleanList
+        rw [Bool.and_eq_true]
+        exact ⟨i1.2, i2.2⟩
 end
 
 /- the template of an instantiation of a (clean) template is that template -/
 mutual
-  theorem templ_of_isInst' (tbl : Tbl) : ∀ (t t' : Prog), templ tbl t = t →
+  theorem templ_of_isInst' (fx : Fix) (tbl : Tbl) : ∀ (t t' : Prog), clean fx tbl t = true →
       isInst tbl t t' = true → templ tbl t' = t
     | .node P kids, .node k kids' => by
       intro hf hi
-      unfold templ at hf
-      simp only [Tree.node.injEq] at hf
+      unfold clean at hf
+      rw [Bool.and_eq_true] at hf
       unfold isInst at hi
       rw [Bool.and_eq_true] at hi
-      have hsf := slotFix_of_templSym hf.1
+      have hsf := cleanSym_iff.mp hf.1
       unfold templ
       rw [templSym_of_produces' hsf ((produces_iff_symInst' hsf).mpr hi.1),
-        templList_of_isInstList' tbl kids kids' hf.2 hi.2]
-  theorem templList_of_isInstList' (tbl : Tbl) : ∀ (ks ks' : List Prog), templList tbl ks = ks →
+        templList_of_isInstList' fx tbl kids kids' hf.2 hi.2]
+  theorem templList_of_isInstList' (fx : Fix) (tbl : Tbl) : ∀ (ks ks' : List Prog), cleanList fx tbl ks = true →
       isInstList tbl ks ks' = true → templList tbl ks' = ks
     | [], [] => by intro _ _; rfl
     | [], _ :: _ => by intro _ hi; simp [isInstList] at hi
     | _ :: _, [] => by intro _ hi; simp [isInstList] at hi
     | k :: ks, k' :: ks' => by
       intro hf hi
-      unfold templList at hf
-      simp only [List.cons.injEq] at hf
+      unfold cleanList at hf
+      rw [Bool.and_eq_true] at hf
       unfold isInstList at hi
       rw [Bool.and_eq_true] at hi
       unfold templList
-      rw [templ_of_isInst' tbl k k' hf.1 hi.1, templList_of_isInstList' tbl ks ks' hf.2 hi.2]
+      rw [templ_of_isInst' fx tbl k k' hf.1 hi.1, templList_of_isInstList' fx tbl ks ks' hf.2 hi.2]
 end
 
 /-! ### language -/
@@ -381,43 +424,43 @@ theorem genU_iff {G : U.UCFG V} {t : Prog} :
       | nil => rw [hl] at hm; cases hm
       | cons _ _ => rfl
 
-theorem templ_fix_of_genU (tbl : Tbl) (G : U.UCFG V) (h : rulesOK tbl G.rules = true) (t : Prog)
-    (hg : U.genU G t = true) : templ tbl t = t := by
+theorem clean_of_genU (fx : Fix) (tbl : Tbl) (G : U.UCFG V) (h : rulesOK fx tbl G.rules = true) (t : Prog)
+    (hg : U.genU G t = true) : clean fx tbl t = true := by
   obtain ⟨s, _, hd⟩ := genU_iff.mp hg
-  exact templ_fix_of_derivs tbl G h t s hd
+  exact clean_of_derivs fx tbl G h t s hd
 
 theorem map_ne_nil_iff' {α β : Type} (f : α → β) (l : List α) : l.map f ≠ [] ↔ l ≠ [] := by
   cases l <;> simp
 
 /-- **language of the instantiated unambiguous grammar** -/
-theorem genU_inst_iff (tbl : Tbl) (G : U.UCFG V) (h : rulesOK tbl G.rules = true) (t' : Prog) :
-    U.genU (instUG G tbl) t' = true ↔ ∃ t, U.genU G t = true ∧ isInst tbl t t' = true := by
+theorem genU_inst_iff (fx : Fix) (tbl : Tbl) (G : U.UCFG V) (h : rulesOK fx tbl G.rules = true) (t' : Prog) :
+    U.genU (instUG fx G tbl) t' = true ↔ ∃ t, U.genU G t = true ∧ isInst tbl t t' = true := by
   constructor
   · intro hg
     obtain ⟨s, hs, hd⟩ := genU_iff.mp hg
-    obtain ⟨hi, hf⟩ := isInst_templ_of_derivs tbl G h t' s hd
+    obtain ⟨hi, hf⟩ := isInst_templ_of_derivs fx tbl G h t' s hd
     refine ⟨templ tbl t', genU_iff.mpr ⟨s, hs, ?_⟩, hi⟩
-    rw [← derivs_inst tbl G h (templ tbl t') t' s hf hi]
+    rw [← derivs_inst fx tbl G h (templ tbl t') t' s hf hi]
     exact (map_ne_nil_iff' _ _).mpr hd
   · rintro ⟨t, hg, hi⟩
     obtain ⟨s, hs, hd⟩ := genU_iff.mp hg
-    have hf := templ_fix_of_derivs tbl G h t s hd
+    have hf := clean_of_derivs fx tbl G h t s hd
     refine genU_iff.mpr ⟨s, hs, ?_⟩
-    rw [← derivs_inst tbl G h t t' s hf hi] at hd
+    rw [← derivs_inst fx tbl G h t t' s hf hi] at hd
     exact (map_ne_nil_iff' _ _).mp hd
 
 /-! ### `all_constants_instantiation` lists instantiations (for clean templates) -/
 
 mutual
-  theorem allInst_sound (tbl : Tbl) : ∀ (t : Prog) (l : List Prog), templ tbl t = t →
-      allInst tbl t = some l → ∀ t' ∈ l, isInst tbl t t' = true
+  theorem allInst_sound (fx : Fix) (tbl : Tbl) : ∀ (t : Prog) (l : List Prog), clean fx tbl t = true →
+      allInst fx tbl t = some l → ∀ t' ∈ l, isInst tbl t t' = true
     | .node P kids, l => by
       intro hf ha t' ht'
-      unfold templ at hf
-      simp only [Tree.node.injEq] at hf
-      have hsf := slotFix_of_templSym hf.1
+      unfold clean at hf
+      rw [Bool.and_eq_true] at hf
+      have hsf := cleanSym_iff.mp hf.1
       unfold allInst at ha
-      cases e1 : allInstSym tbl P with
+      cases e1 : allInstSym fx tbl P with
       | none => rw [e1] at ha; cases ha
       | some hs =>
         rw [e1] at ha
@@ -428,7 +471,7 @@ mutual
           rw [← ha] at ht'; cases ht'
         | cons h0 hs0 =>
           simp only at ha
-          cases e2 : allInstList tbl kids with
+          cases e2 : allInstList fx tbl kids with
           | none => rw [e2] at ha; cases ha
           | some poss =>
             rw [e2] at ha
@@ -438,9 +481,9 @@ mutual
             unfold isInst
             rw [Bool.and_eq_true]
             exact ⟨(produces_iff_symInst' hsf).mp (hprod k hk),
-              allInstList_sound tbl kids poss hf.2 e2 ks' hks'⟩
-  theorem allInstList_sound (tbl : Tbl) : ∀ (ks : List Prog) (poss : List (List Prog)),
-      templList tbl ks = ks → allInstList tbl ks = some poss →
+              allInstList_sound fx tbl kids poss hf.2 e2 ks' hks'⟩
+  theorem allInstList_sound (fx : Fix) (tbl : Tbl) : ∀ (ks : List Prog) (poss : List (List Prog)),
+      cleanList fx tbl ks = true → allInstList fx tbl ks = some poss →
       ∀ ks' ∈ product poss, isInstList tbl ks ks' = true
     | [], poss => by
       intro _ ha ks' hks'
@@ -451,13 +494,13 @@ mutual
       rfl
     | k :: ks, poss => by
       intro hf ha ks' hks'
-      unfold templList at hf
-      simp only [List.cons.injEq] at hf
+      unfold cleanList at hf
+      rw [Bool.and_eq_true] at hf
       unfold allInstList at ha
-      cases e1 : allInst tbl k with
+      cases e1 : allInst fx tbl k with
       | none => rw [e1] at ha; cases ha
       | some l =>
-        cases e2 : allInstList tbl ks with
+        cases e2 : allInstList fx tbl ks with
         | none => rw [e1, e2] at ha; cases ha
         | some ls =>
           rw [e1, e2] at ha
@@ -466,7 +509,7 @@ mutual
           obtain ⟨x, r, rfl, hx, hr⟩ := hks'
           unfold isInstList
           rw [Bool.and_eq_true]
-          exact ⟨allInst_sound tbl k l hf.1 e1 x hx, allInstList_sound tbl ks ls hf.2 e2 r hr⟩
+          exact ⟨allInst_sound fx tbl k l hf.1 e1 x hx, allInstList_sound fx tbl ks ls hf.2 e2 r hr⟩
 end
 
 /-! ### weights -/
@@ -538,24 +581,24 @@ theorem wsumList_cons_cons (G : U.UCFG V) (tg : U.UTags V) (k : Prog) (ks : List
   exact rsum_flatMap_map (fun d r => d ++ r) (U.derWeightU tg) (U.derWeightU tg) (U.derWeightU tg)
     _ _ (fun d _ r => U.Mass.derWeightU_append tg d r)
 
-theorem weightU_inst_of_produces {tbl : Tbl} {tg : U.UTags V} (h : rulesOK tbl tg.tags = true)
-    (nt : U.UNT V) {P k : Sym} (hP : okKey tbl P) (hp : produces tbl P k) (args : List (U.UNT V)) :
-    U.weightU (instUTg tg tbl) (nt, k, args) =
-      (match slot? tbl P with
+theorem weightU_inst_of_produces {fx : Fix} {tbl : Tbl} {tg : U.UTags V} (h : rulesOK fx tbl tg.tags = true)
+    (nt : U.UNT V) {P k : Sym} (hP : okKey fx tbl P) (hp : produces fx tbl P k) (args : List (U.UNT V)) :
+    U.weightU (instUTg fx tg tbl) (nt, k, args) =
+      (match slot? fx tbl P with
         | some vals => U.weightU tg (nt, P, args) / (vals.length : Rat)
         | none => U.weightU tg (nt, P, args)) := by
   unfold U.weightU U.tagOfU instUTg instUTags
   simp only [lookup_instRules]
   cases hl : AList.lookup nt tg.tags with
-  | none => cases slot? tbl P <;> simp
+  | none => cases slot? fx tbl P <;> simp
   | some row =>
     simp only [Option.map_some]
     rw [lookup_instRow_of_produces (rulesOK_row h hl) hP hp]
     cases AList.lookup P row with
-    | none => cases slot? tbl P <;> simp
+    | none => cases slot? fx tbl P <;> simp
     | some d =>
       simp only [Option.map_some]
-      cases slot? tbl P with
+      cases slot? fx tbl P with
       | none => rfl
       | some vals =>
         simp only
@@ -563,18 +606,18 @@ theorem weightU_inst_of_produces {tbl : Tbl} {tg : U.UTags V} (h : rulesOK tbl t
         cases AList.lookup args d <;> simp
 
 mutual
-  theorem wsum_inst (tbl : Tbl) (G : U.UCFG V) (tg : U.UTags V)
-      (hG : rulesOK tbl G.rules = true) (hT : rulesOK tbl tg.tags = true)
-      (hne : rulesNonEmpty tbl G.rules = true) : ∀ (t : Prog) (nt : U.UNT V) (l : List Prog), templ tbl t = t →
-      allInst tbl t = some l →
-      rsum (l.map fun t' => wsum (instUG G tbl) (instUTg tg tbl) t' nt) = wsum G tg t nt
+  theorem wsum_inst (fx : Fix) (tbl : Tbl) (G : U.UCFG V) (tg : U.UTags V)
+      (hG : rulesOK fx tbl G.rules = true) (hT : rulesOK fx tbl tg.tags = true)
+      (hne : rulesNonEmpty fx tbl G.rules = true) : ∀ (t : Prog) (nt : U.UNT V) (l : List Prog), clean fx tbl t = true →
+      allInst fx tbl t = some l →
+      rsum (l.map fun t' => wsum (instUG fx G tbl) (instUTg fx tg tbl) t' nt) = wsum G tg t nt
     | .node P kids, nt, l => by
       intro hf ha
-      unfold templ at hf
-      simp only [Tree.node.injEq] at hf
-      have hsf := slotFix_of_templSym hf.1
+      unfold clean at hf
+      rw [Bool.and_eq_true] at hf
+      have hsf := cleanSym_iff.mp hf.1
       unfold allInst at ha
-      cases e1 : allInstSym tbl P with
+      cases e1 : allInstSym fx tbl P with
       | none => rw [e1] at ha; cases ha
       | some hs =>
         rw [e1] at ha
@@ -591,7 +634,7 @@ mutual
               rw [← ha] at ht'; cases ht'
             | cons h0 hs0 =>
               simp only at ha
-              cases e2 : allInstList tbl kids with
+              cases e2 : allInstList fx tbl kids with
               | none => rw [e2] at ha; cases ha
               | some poss =>
                 rw [e2] at ha
@@ -611,7 +654,7 @@ mutual
           cases hs with
           | nil =>
             exfalso
-            cases hs' : slot? tbl P with
+            cases hs' : slot? fx tbl P with
             | none => rw [hs'] at hshape; cases hshape
             | some vals =>
               rw [hs'] at hshape hnz'
@@ -620,23 +663,23 @@ mutual
               | cons v vs => cases hshape
           | cons h0 hs0 =>
             simp only at ha
-            cases e2 : allInstList tbl kids with
+            cases e2 : allInstList fx tbl kids with
             | none => rw [e2] at ha; cases ha
             | some poss =>
               rw [e2] at ha
               simp only [Option.some.injEq] at ha
               rw [← ha]
-              have ih := fun args => wsumList_inst tbl G tg hG hT hne kids args poss hf.2 e2
+              have ih := fun args => wsumList_inst fx tbl G tg hG hT hne kids args poss hf.2 e2
               -- the weight of an alternative of an instantiated head
               let c : List (U.UNT V) → Rat := fun args =>
-                match slot? tbl P with
+                match slot? fx tbl P with
                 | some vals => U.weightU tg (nt, P, args) / (vals.length : Rat)
                 | none => U.weightU tg (nt, P, args)
               have hfac : ∀ k ∈ h0 :: hs0, ∀ ks',
-                  wsum (instUG G tbl) (instUTg tg tbl) (Tree.node k ks') nt =
+                  wsum (instUG fx G tbl) (instUTg fx tg tbl) (Tree.node k ks') nt =
                     (fun _ => (1 : Rat)) k *
                       rsum (cands.map fun args =>
-                        c args * wsumList (instUG G tbl) (instUTg tg tbl) ks' args) := by
+                        c args * wsumList (instUG fx G tbl) (instUTg fx tg tbl) ks' args) := by
                 intro k hk ks'
                 rw [wsum_node, alts?_inst_of_produces hG nt hok (hprod k hk), ha0]
                 simp only [Rat.one_mul]
@@ -645,13 +688,13 @@ mutual
                 rw [weightU_inst_of_produces hT nt hok (hprod k hk) args]
               rw [rsum_flatMap_map (fun f' ks => Tree.node f' ks) _ _ _ _ _ hfac,
                 rsum_exchange c
-                  (fun ks' args => wsumList (instUG G tbl) (instUTg tg tbl) ks' args)
+                  (fun ks' args => wsumList (instUG fx G tbl) (instUTg fx tg tbl) ks' args)
                   (product poss) cands]
               simp only [ih]
               rw [wsum_node G tg, ha0]
               simp only
               rw [rsum_map_const]
-              cases hs' : slot? tbl P with
+              cases hs' : slot? fx tbl P with
               | none =>
                 rw [hs'] at hshape
                 rw [hshape]
@@ -670,11 +713,11 @@ mutual
                     (1 / (vals.length : Rat)) * (U.weightU tg (nt, P, args) * wsumList G tg kids args))
                   (fun args _ => by ring), rsum_map_mul_left]
                 field_simp
-  theorem wsumList_inst (tbl : Tbl) (G : U.UCFG V) (tg : U.UTags V)
-      (hG : rulesOK tbl G.rules = true) (hT : rulesOK tbl tg.tags = true)
-      (hne : rulesNonEmpty tbl G.rules = true) : ∀ (ks : List Prog) (as : List (U.UNT V)) (poss : List (List Prog)),
-      templList tbl ks = ks → allInstList tbl ks = some poss →
-      rsum ((product poss).map fun ks' => wsumList (instUG G tbl) (instUTg tg tbl) ks' as) =
+  theorem wsumList_inst (fx : Fix) (tbl : Tbl) (G : U.UCFG V) (tg : U.UTags V)
+      (hG : rulesOK fx tbl G.rules = true) (hT : rulesOK fx tbl tg.tags = true)
+      (hne : rulesNonEmpty fx tbl G.rules = true) : ∀ (ks : List Prog) (as : List (U.UNT V)) (poss : List (List Prog)),
+      cleanList fx tbl ks = true → allInstList fx tbl ks = some poss →
+      rsum ((product poss).map fun ks' => wsumList (instUG fx G tbl) (instUTg fx tg tbl) ks' as) =
         wsumList G tg ks as
     | [], [], poss => by
       intro _ ha
@@ -689,10 +732,10 @@ mutual
     | k :: ks, [], poss => by
       intro _ ha
       unfold allInstList at ha
-      cases e1 : allInst tbl k with
+      cases e1 : allInst fx tbl k with
       | none => rw [e1] at ha; cases ha
       | some l =>
-        cases e2 : allInstList tbl ks with
+        cases e2 : allInstList fx tbl ks with
         | none => rw [e1, e2] at ha; cases ha
         | some ls =>
           rw [e1, e2] at ha
@@ -705,24 +748,24 @@ mutual
           exact wsumList_cons_nil _ _ x r
     | k :: ks, a :: as, poss => by
       intro hf ha
-      unfold templList at hf
-      simp only [List.cons.injEq] at hf
+      unfold cleanList at hf
+      rw [Bool.and_eq_true] at hf
       unfold allInstList at ha
-      cases e1 : allInst tbl k with
+      cases e1 : allInst fx tbl k with
       | none => rw [e1] at ha; cases ha
       | some l =>
-        cases e2 : allInstList tbl ks with
+        cases e2 : allInstList fx tbl ks with
         | none => rw [e1, e2] at ha; cases ha
         | some ls =>
           rw [e1, e2] at ha
           simp only [Option.some.injEq] at ha
           rw [← ha]
-          have ih1 := wsum_inst tbl G tg hG hT hne k a l hf.1 e1
-          have ih2 := wsumList_inst tbl G tg hG hT hne ks as ls hf.2 e2
+          have ih1 := wsum_inst fx tbl G tg hG hT hne k a l hf.1 e1
+          have ih2 := wsumList_inst fx tbl G tg hG hT hne ks as ls hf.2 e2
           unfold product
           rw [rsum_flatMap_map (fun x r => x :: r) _
-            (fun x => wsum (instUG G tbl) (instUTg tg tbl) x a)
-            (fun r => wsumList (instUG G tbl) (instUTg tg tbl) r as) _ _
+            (fun x => wsum (instUG fx G tbl) (instUTg fx tg tbl) x a)
+            (fun r => wsumList (instUG fx G tbl) (instUTg fx tg tbl) r as) _ _
             (fun x _ r => wsumList_cons_cons _ _ x r a as)]
           rw [ih1, ih2, wsumList_cons_cons]
 end
@@ -733,18 +776,18 @@ end
 def totW (σ : U.UNT V → Rat) (G : U.UCFG V) (tg : U.UTags V) (t : Prog) : Rat :=
   rsum (G.starts.map fun s => σ s * wsum G tg t s)
 
-theorem totW_inst (σ : U.UNT V → Rat) (tbl : Tbl) (G : U.UCFG V) (tg : U.UTags V)
-    (hG : rulesOK tbl G.rules = true) (hT : rulesOK tbl tg.tags = true)
-    (hne : rulesNonEmpty tbl G.rules = true) (t : Prog) (l : List Prog)
-    (hf : templ tbl t = t) (ha : allInst tbl t = some l) :
-    rsum (l.map (totW σ (instUG G tbl) (instUTg tg tbl))) = totW σ G tg t := by
+theorem totW_inst (σ : U.UNT V → Rat) (fx : Fix) (tbl : Tbl) (G : U.UCFG V) (tg : U.UTags V)
+    (hG : rulesOK fx tbl G.rules = true) (hT : rulesOK fx tbl tg.tags = true)
+    (hne : rulesNonEmpty fx tbl G.rules = true) (t : Prog) (l : List Prog)
+    (hf : clean fx tbl t = true) (ha : allInst fx tbl t = some l) :
+    rsum (l.map (totW σ (instUG fx G tbl) (instUTg fx tg tbl))) = totW σ G tg t := by
   unfold totW
   show rsum (l.map fun t' => rsum (G.starts.map fun s =>
-    σ s * wsum (instUG G tbl) (instUTg tg tbl) t' s)) = _
-  rw [rsum_exchange σ (fun t' s => wsum (instUG G tbl) (instUTg tg tbl) t' s) l G.starts]
+    σ s * wsum (instUG fx G tbl) (instUTg fx tg tbl) t' s)) = _
+  rw [rsum_exchange σ (fun t' s => wsum (instUG fx G tbl) (instUTg fx tg tbl) t' s) l G.starts]
   apply rsum_map_congr
   intro s _
-  rw [wsum_inst tbl G tg hG hT hne t s l hf ha]
+  rw [wsum_inst fx tbl G tg hG hT hne t s l hf ha]
 
 theorem allDerivs_sum (σ : U.UNT V → Rat) (G : U.UCFG V) (tg : U.UTags V) (t : Prog) :
     rsum ((U.allDerivs G t).map fun sd => σ sd.1 * U.derWeightU tg sd.2) = totW σ G tg t := by
@@ -818,60 +861,60 @@ theorem probabilityU_eq_totW (G : U.UCFG V) (tg : U.UTags V) (t : Prog)
         rw [h1 v hf, hd]; ring
 
 section final
-variable (tbl : Tbl) (G : U.UCFG V) (tg : U.UTags V)
-  (hG : rulesOK tbl G.rules = true) (hT : rulesOK tbl tg.tags = true)
-  (hne : rulesNonEmpty tbl G.rules = true)
+variable (fx : Fix) (tbl : Tbl) (G : U.UCFG V) (tg : U.UTags V)
+  (hG : rulesOK fx tbl G.rules = true) (hT : rulesOK fx tbl tg.tags = true)
+  (hne : rulesNonEmpty fx tbl G.rules = true)
 include hG
 
 /-- unambiguity is preserved: an instantiation has as many derivations as its template -/
 theorem unambiguousOn_inst (t t' : Prog) (hg : U.genU G t = true) (hi : isInst tbl t t' = true) :
-    U.unambiguousOn (instUG G tbl) t' = U.unambiguousOn G t := by
+    U.unambiguousOn (instUG fx G tbl) t' = U.unambiguousOn G t := by
   unfold U.unambiguousOn
-  rw [allDerivs_inst_length tbl G hG t t' (templ_fix_of_genU tbl G hG t hg) hi]
+  rw [allDerivs_inst_length fx tbl G hG t t' (clean_of_genU fx tbl G hG t hg) hi]
 
 include hT hne
 
 /-- **mass, specification** -/
 theorem probU_mass (t : Prog) (l : List Prog) (hg : U.genU G t = true)
-    (hu : U.unambiguousOn G t = true) (ha : allInst tbl t = some l) :
-    rsum (l.map (U.probU (instUG G tbl) (instUTg tg tbl))) = U.probU G tg t := by
-  have hf := templ_fix_of_genU tbl G hG t hg
-  rw [probU_eq_totW G tg t hu, ← totW_inst (U.startWeight tg) tbl G tg hG hT hne t l hf ha]
+    (hu : U.unambiguousOn G t = true) (ha : allInst fx tbl t = some l) :
+    rsum (l.map (U.probU (instUG fx G tbl) (instUTg fx tg tbl))) = U.probU G tg t := by
+  have hf := clean_of_genU fx tbl G hG t hg
+  rw [probU_eq_totW G tg t hu, ← totW_inst (U.startWeight tg) fx tbl G tg hG hT hne t l hf ha]
   apply rsum_map_congr
   intro t' ht'
-  have hi := allInst_sound tbl t l hf ha t' ht'
-  rw [probU_eq_totW _ _ t' (by rw [unambiguousOn_inst tbl G hG t t' hg hi]; exact hu)]
+  have hi := allInst_sound fx tbl t l hf ha t' ht'
+  rw [probU_eq_totW _ _ t' (by rw [unambiguousOn_inst fx tbl G hG t t' hg hi]; exact hu)]
   rfl
 
 /-- **mass, model of `ProbUGrammar.probability`** -/
 theorem probabilityU_mass (t : Prog) (l : List Prog) (hg : U.genU G t = true)
-    (hu : U.unambiguousOn G t = true) (ha : allInst tbl t = some l) :
-    rsum (l.map (U.probabilityU (instUG G tbl) (instUTg tg tbl))) = U.probabilityU G tg t := by
-  have hf := templ_fix_of_genU tbl G hG t hg
-  rw [probabilityU_eq_totW G tg t hu, ← totW_inst (fun _ => 1) tbl G tg hG hT hne t l hf ha]
+    (hu : U.unambiguousOn G t = true) (ha : allInst fx tbl t = some l) :
+    rsum (l.map (U.probabilityU (instUG fx G tbl) (instUTg fx tg tbl))) = U.probabilityU G tg t := by
+  have hf := clean_of_genU fx tbl G hG t hg
+  rw [probabilityU_eq_totW G tg t hu, ← totW_inst (fun _ => 1) fx tbl G tg hG hT hne t l hf ha]
   apply rsum_map_congr
   intro t' ht'
-  have hi := allInst_sound tbl t l hf ha t' ht'
-  exact probabilityU_eq_totW _ _ t' (by rw [unambiguousOn_inst tbl G hG t t' hg hi]; exact hu)
+  have hi := allInst_sound fx tbl t l hf ha t' ht'
+  exact probabilityU_eq_totW _ _ t' (by rw [unambiguousOn_inst fx tbl G hG t t' hg hi]; exact hu)
 
 end final
 
 /-! ### total mass of the derivations within a depth budget -/
 
-theorem lookup_instUG {tbl : Tbl} {G : U.UCFG V} (h : rulesOK tbl G.rules = true) {nt : U.UNT V}
+theorem lookup_instUG {fx : Fix} {tbl : Tbl} {G : U.UCFG V} (h : rulesOK fx tbl G.rules = true) {nt : U.UNT V}
     {rs : AList Sym (List (List (U.UNT V)))} (hl : AList.lookup nt G.rules = some rs) :
-    AList.lookup nt (instUG G tbl).rules = some (rs.flatMap (expand tbl (fun v _ => v))) := by
+    AList.lookup nt (instUG fx G tbl).rules = some (rs.flatMap (expand fx tbl (fun v _ => v))) := by
   unfold instUG instU
   simp only [lookup_instRules, hl, Option.map_some]
   rw [instRow_eq_flatMap (rulesOK_row h hl)]
 
 /-- **no mass is lost** (unambiguous grammars): for every depth budget and non-terminal the
     total weight of the derivations of the instantiated grammar is that of the template grammar -/
-theorem massU_inst (tbl : Tbl) (G : U.UCFG V) (tg : U.UTags V)
-    (hG : rulesOK tbl G.rules = true) (hT : rulesOK tbl tg.tags = true)
-    (hne : rulesNonEmpty tbl G.rules = true) :
+theorem massU_inst (fx : Fix) (tbl : Tbl) (G : U.UCFG V) (tg : U.UTags V)
+    (hG : rulesOK fx tbl G.rules = true) (hT : rulesOK fx tbl tg.tags = true)
+    (hne : rulesNonEmpty fx tbl G.rules = true) :
     ∀ (k : Nat) (nt : U.UNT V),
-      U.Mass.massU (instUG G tbl) (instUTg tg tbl) k nt = U.Mass.massU G tg k nt := by
+      U.Mass.massU (instUG fx G tbl) (instUTg fx tg tbl) k nt = U.Mass.massU G tg k nt := by
   intro k
   induction k with
   | zero => intro nt; simp [U.Mass.massU, U.dersU]
@@ -879,7 +922,7 @@ theorem massU_inst (tbl : Tbl) (G : U.UCFG V) (tg : U.UTags V)
     intro nt
     cases hl : AList.lookup nt G.rules with
     | none =>
-      have hl' : AList.lookup nt (instUG G tbl).rules = none := by
+      have hl' : AList.lookup nt (instUG fx G tbl).rules = none := by
         unfold instUG instU; simp only [lookup_instRules, hl, Option.map_none]
       simp [U.Mass.massU, U.dersU, hl, hl']
     | some rs =>
@@ -890,14 +933,14 @@ theorem massU_inst (tbl : Tbl) (G : U.UCFG V) (tg : U.UTags V)
       intro e he
       have hrow := rulesOK_row hG hl
       have hmem : e.1 ∈ AList.keys rs := List.mem_map.mpr ⟨e, he, rfl⟩
-      have hok : okKey tbl e.1 := (rowOK_iff.mp hrow).2 e.1 hmem
+      have hok : okKey fx tbl e.1 := (rowOK_iff.mp hrow).2 e.1 hmem
       have hnz := rulesNonEmpty_row hne hl
       unfold rowNonEmpty at hnz
       rw [List.all_eq_true] at hnz
       have hnz' := hnz e.1 hmem
       simp only [ih]
       unfold expand
-      cases hs : slot? tbl e.1 with
+      cases hs : slot? fx tbl e.1 with
       | none =>
         simp only [List.map_cons, List.map_nil, List.sum_cons, List.sum_nil, Rat.add_zero]
         congr 1
@@ -920,7 +963,7 @@ theorem massU_inst (tbl : Tbl) (G : U.UCFG V) (tg : U.UTags V)
             congr 1
             apply List.map_congr_left
             intro args _
-            have hp : produces tbl e.1 (Sym.const e.1.ty v) := by
+            have hp : produces fx tbl e.1 (Sym.const e.1.ty v) := by
               unfold produces; rw [hs]; exact ⟨v, hv', rfl⟩
             rw [weightU_inst_of_produces hT nt hok hp args, hs]
             ring)]
